@@ -1,5 +1,7 @@
 (* C15 -- the advertised compression bound really bounds one-shot output.  Proved, on the
-   formula regenerated from src/lib.rs: mz_deflateBound computes max(128+1.1n, 128+n+5(n/31744+1))
+   formula regenerated from src/lib.rs: mz_deflateBound computes 128 + n + n/8 + 5(n/31744+1)
+   (it dominates miniz's max(128+1.1n, 128+n+5(n/31744+1)) and allows 9 bits per input byte: see the fix
+   recorded in known_findings.json)
    without overflow for n < 2^56, is monotone, and dominates the exact size of a level-0 zlib
    stream (2 + n + 5(floor(n/31745)+1) + 4, confirmed against the implementation on every run).
    PARTIAL by nature: the size of Huffman-coded blocks for adversarial input is searched, not proved. *)
@@ -18,3 +20,11 @@ Proof. exact bound_monotone. Qed.
 Theorem C15_level0_size_within_bound_partial :
   forall n, 0 <= n -> 2 + n + 5 * (n / 31745 + 1) + 4 <= bound_formula n.
 Proof. exact level0_size_within_bound. Qed.
+
+Theorem C15_bound_allows_nine_bits_per_byte :
+  forall n, 0 <= n -> (9 * n + 7) / 8 + 5 * (n / 31744 + 1) + 127 <= bound_formula n.
+Proof. exact bound_nine_bits. Qed.
+
+Theorem C15_bound_dominates_miniz_formula :
+  forall n, 0 <= n -> Z.max (128 + n * 110 / 100) (128 + n + (n / 31744 + 1) * 5) <= bound_formula n.
+Proof. exact bound_dominates_miniz. Qed.
